@@ -97,7 +97,7 @@ def phase_merge(chk, tier, tally):
 # ---------------------------------------------------------------------------
 def phase_schedule(chk, tier, seed, rng, tally):
     if tier == "quick":
-        bounds, ks, nrep = dict(MaxS=6, MaxC=7, MaxL=2, MaxObs=2), "{0, 2}", 1500
+        bounds, ks, nrep = dict(MaxS=6, MaxC=7, MaxL=2, MaxObs=2), "{0, 1, 2}", 1500
     else:
         bounds, ks, nrep = dict(MaxS=8, MaxC=9, MaxL=3, MaxObs=3), "{0, 1, 2}", 10 ** 9
     res = run_sched(bounds, ks)
